@@ -313,6 +313,19 @@ func (fr *Frame) typeAssert(x *ssa.TypeAssert, st *State) Value {
 // ---- calls
 
 func (fr *Frame) call(in ssa.Instruction, cc *ssa.CallCommon, st *State, rt types.Type) Value {
+	fr.atCall(in, cc, st, false, nil, nil)
+	fr.preCall = nil
+	if fr.con != nil && len(fr.con.AtCalls) > 0 {
+		fr.preCall = st.clone()
+	}
+	pre := fr.preCall
+	res := fr.call1(in, cc, st, rt)
+	fr.preCall = pre
+	fr.atCall(in, cc, st, true, res, rt)
+	return res
+}
+
+func (fr *Frame) call1(in ssa.Instruction, cc *ssa.CallCommon, st *State, rt types.Type) Value {
 	var args []Value
 	for _, a := range cc.Args {
 		args = append(args, fr.val(a))
@@ -767,9 +780,16 @@ func (fr *Frame) callModular(in ssa.Instruction, f *ssa.Function, c *Contract, a
 	res := fr.freshResult(st, rt, "r."+name)
 	env2 := p.calleeEnv(f, c, args, st, old)
 	env2.bindResults(f, res)
+	var facts []*Term
 	for _, cl := range c.Ensures {
 		g := env2.evalBool(cl.Expr, cl.Src)
 		p.assume(st.Guard, g)
+		facts = append(facts, g)
+	}
+	if res != nil {
+		res = p.propagateEqs(st, facts, []Value{res})[0]
+	} else {
+		p.propagateEqs(st, facts, nil)
 	}
 	return res
 }
